@@ -21,7 +21,7 @@ from vlib import tlc, pool, fordrun, tree  # noqa: E402
 from vlib.verdict import Check, machinery_failure, load_known  # noqa: E402
 
 PROP = "C20"
-WATCHDOG = 60
+WATCHDOG = 30
 
 VALID = {
     "k_geom.f90": "module geom\n  !! geometry\n  implicit none\n  type :: point\n    real :: x, y\n  end type point\ncontains\n  subroutine reset(p)\n    !! reset a point\n    type(point) :: p\n    call helper(p)\n  end subroutine reset\n  subroutine helper(p)\n    type(point) :: p\n  end subroutine helper\nend module geom\n",
@@ -32,7 +32,8 @@ VALID = {
 # the source that gets corrupted: defines names that also exist in the valid files (reset, point, helper) and uses them
 VICTIM = ("module extra\n  !! extra module\n  use geom\n  implicit none\n  type :: point2\n    integer :: i\n  end type point2\n  integer :: counter\ncontains\n"
           "  subroutine reset(k)\n    !! third reset\n    integer :: k\n    associate (helper => k)\n      call helper_thing(helper)\n    end associate\n  end subroutine reset\n"
-          "  function helper(z) result(r)\n    integer :: z, r\n    r = z\n  end function helper\nend module extra\n")
+          "  function helper(z) result(r)\n    integer :: z, r\n    namelist /settings_group/ counter_value_number_one, counter_value_number_two\n"
+          "    integer :: counter_value_number_one, counter_value_number_two\n    r = z\n  end function helper\nend module extra\n")
 
 MALFORMED = {
     "two-programs-nested": "program a\n  program b\nend program a\n",
@@ -41,6 +42,7 @@ MALFORMED = {
     "submodule-in-program": "program a\n  submodule (x) y\nend program a\n",
     "amp-start": "module a\n  & integer :: x\nend module a\n",
     "predoc-inline": "module a\n  integer :: x !> inline predoc\nend module a\n",
+    "amp-start-brackets": "module a\n  character(len=40) :: usage\n  & = \"[/path/to/input] [options]\"\nend module a\n",
     "text": "this is not Fortran at all\n%%%% ???? ((((\n",
     "empty": "",
     "only-comments": "! nothing here\n!! nor here\n",
@@ -63,6 +65,8 @@ def corruptions(seed, big):
         out.append((f"misplaced-contains@{k}", "".join(lines[:k] + ["contains\n"] + lines[k:]).encode()))
     for k in range(1, len(lines), 1 if big else 3):
         out.append((f"garbage@{k}", "".join(lines[:k] + ["@@@ ??? (((\n"] + lines[k:]).encode()))
+    for k in range(1, len(lines) - 1):                           # a lost line break glues two statements together
+        out.append((f"join@{k}", "".join(lines[:k] + [lines[k].rstrip("\n") + " " + lines[k + 1].lstrip()] + lines[k + 2:]).encode()))
     for k in (2, 10, len(lines) - 1):
         out.append((f"undecodable@{k}", "".join(lines[:k]).encode() + b"  ! \xff\xfe\xfa bytes\n" + "".join(lines[k:]).encode()))
     for name, text in MALFORMED.items():
@@ -70,30 +74,33 @@ def corruptions(seed, big):
     return out
 
 
-POSITIONS = {"before": "a_bad.f90", "between": "m_bad.f90", "after": "z_bad.f90"}
+POSITIONS = {"before": "a_bad.f90", "between": "m_bad.f90", "after": "z_bad.f90", "bracketdir": "[old]/q_[v2]_bad.f90"}
 
 
 def observe(files):
     """Run FORD (default error settings: dbg=True) under a watchdog; return observable of the run."""
-    cap = []
-
     def go():
-        return fordrun.project(files, capture=cap)
+        cap = []
+        p = fordrun.project(files, capture=cap)
+        return {"tree": tree.project_tree(p), "urls": tree.entity_urls(p), "registered": sorted(f.name for f in p.files), "stdout": cap[0] if cap else ""}
     try:
-        p = pool.with_watchdog(go, WATCHDOG)
+        # in a child of its own that is killed when the time is up: a signal-based watchdog cannot interrupt a regular-expression match
+        return pool.run_isolated(go, WATCHDOG)
     except pool.Timeout:
         return {"_hang": True}
     except BaseException as ex:  # noqa: BLE001
-        return {"_crash": f"{type(ex).__name__}: {ex}"}
-    t = tree.project_tree(p)
-    urls = tree.entity_urls(p)
-    return {"tree": t, "urls": urls, "registered": sorted(f.name for f in p.files), "stdout": cap[0] if cap else ""}
+        return {"_crash": str(ex)}
+
+
+_BASE = {}
 
 
 def evaluate(case):
     label, data, pos = case["label"], bytes.fromhex(case["data"]), case["pos"]
     bad_name = POSITIONS[pos]
-    base = observe(dict(VALID))
+    if "base" not in _BASE:
+        _BASE["base"] = observe(dict(VALID))        # the run without the extra file: once per worker process
+    base = _BASE["base"]
     files = dict(VALID)
     files[bad_name] = data
     if case.get("second"):
@@ -104,9 +111,14 @@ def evaluate(case):
         return {"problems": [("hang", f"FORD did not terminate within {WATCHDOG}s")], "rejected": None}
     if obs.get("_crash"):
         return {"problems": [("abort", f"the run aborted: {obs['_crash']}")], "rejected": None}
-    rejected = bad_name not in obs["registered"]
-    bad_files = {bad_name, "zz_bad2.f90"}
+    bad_base = os.path.basename(bad_name)
+    rejected = bad_base not in obs["registered"]
+    bad_files = {bad_base, "zz_bad2.f90"}
     reports_error = ("ERROR in file" in obs["stdout"] or "Error parsing" in obs["stdout"])
+    if case.get("second") and not (rejected and "zz_bad2.f90" not in obs["registered"]):
+        # two extra files of which FORD accepts at least one as an ordinary source: that one legitimately takes part in
+        # naming, so there is no run "without them" to compare with; termination (checked above) is all that is demanded
+        return {"problems": [], "rejected": rejected, "accepted_silently": True}
     if not rejected and not reports_error and not case.get("second"):
         # FORD parsed the file without complaint: for FORD it is an ordinary source file, not an unparseable one;
         # only termination (checked above) is demanded
@@ -120,7 +132,7 @@ def evaluate(case):
         if obs["urls"].get(k) != u:
             problems.append(("url", f"{k}: URL {u!r} without the corrupt file, {obs['urls'].get(k)!r} with it"))
             break
-    reported = ("Error parsing" in obs["stdout"] or "ERROR in file" in obs["stdout"]) and bad_name in obs["stdout"]
+    reported = ("Error parsing" in obs["stdout"] or "ERROR in file" in obs["stdout"]) and bad_name in obs["stdout"].replace("\n", "")
     if rejected and not reported:
         problems.append(("not-named", f"{bad_name} was rejected but the diagnostic does not name it: {obs['stdout'][-200:]!r}"))
     if reports_error and not rejected:
@@ -179,7 +191,10 @@ def trace_job(job):
     """One whole run recorded for Pipeline_Trace (runs in a pool worker)."""
     from vlib import pipebind
     name, files, meta = job
-    ok, events, log = pipebind.record(files, meta)
+    try:
+        ok, events, log = pool.run_isolated(lambda: pipebind.record(files, meta), 2 * WATCHDOG)
+    except pool.Timeout:
+        return {"name": name, "ok": False, "events": None, "log": "", "hang": True}
     return {"name": name, "ok": ok, "events": events, "log": log}
 
 
@@ -202,6 +217,10 @@ def pipeline_traces(ck, dev, cor, big, seed):
         jobs.append(("repo-example", exfiles, {"predocmark": ">", "docmark_alt": "#", "predocmark_alt": "<", "display": ["public", "protected"],
                                                "exclude": "src/excluded_file.f90", "extensions": ["f90", "fpp"], "fpp_extensions": []}))
     recs = pool.pmap(trace_job, jobs, chunksize=1)
+    for r in recs:
+        if r.get("hang"):
+            ck.violation("hang", {"run": r["name"]}, detail=f"whole run '{r['name']}': FORD did not terminate within {2 * WATCHDOG}s")
+    recs = [r for r in recs if not r.get("hang")]
     with ThreadPoolExecutor(max_workers=12) as ex:
         verdicts = list(ex.map(lambda r: pipebind.validate(r["events"], dev), recs))
     nev = 0
